@@ -59,6 +59,9 @@ func c18Scenarios() []vshard.Scenario {
 	var scs []vshard.Scenario
 	for _, p := range c18Progs() {
 		p := p
+		if p.bound > 0 && os_Getenv("VERIF_TIER") == "thorough" {
+			p.bound++ // the long programs run one bound below the others in both tiers
+		}
 		scs = append(scs, vshard.Scenario{
 			Name:  p.name,
 			Body:  vsEvalBody(p.code, nil),
@@ -82,6 +85,9 @@ func c18Scenarios() []vshard.Scenario {
 
 func TestVerifC18(t *testing.T) {
 	cfg := vshard.Config{Delay: true, Bound: 2, MaxPoints: 5000}
+	if os_Getenv("VERIF_TIER") == "thorough" {
+		cfg.Bound = 3
+	}
 	if vshard.IsWorker() {
 		vshard.Serve(c18Scenarios(), cfg)
 		return
